@@ -583,14 +583,34 @@ class Ev:
             if len(st.body) == 1 and isinstance(st.body[0], ast.Expr) and isinstance(st.body[0].value, ast.Call) and not st.finalbody and not st.orelse:
                 call = st.body[0].value
                 if (isinstance(call.func, ast.Attribute) and call.func.attr == "encode" and call.args and isinstance(call.args[0], ast.Constant)
-                        and str(call.args[0].value).lower().replace("-", "") in ("ascii", "usascii") and len(st.handlers) == 1
+                        and str(call.args[0].value).lower().replace("-", "").replace("_", "") in ("ascii", "usascii", "646") and len(st.handlers) == 1
                         and st.handlers[0].type is not None and ast.unparse(st.handlers[0].type) in ("UnicodeEncodeError", "UnicodeError", "ValueError", "Exception")):
+                    errors = "strict"
+                    if len(call.args) >= 2:
+                        if not isinstance(call.args[1], ast.Constant):
+                            raise Unsupported("encode with non-constant error handler")
+                        errors = call.args[1].value
+                    for kw in call.keywords:
+                        if kw.arg == "errors" and isinstance(kw.value, ast.Constant):
+                            errors = kw.value.value
+                        else:
+                            raise Unsupported("encode keyword " + str(kw.arg))
+                    if len(call.args) > 2:
+                        raise Unsupported("encode arguments")
                     t = self.expr(call.func.value, env)
                     if not isinstance(t, T):
                         raise Unsupported("encode receiver")
-                    isascii = t.pull(ASCII)
-                    out = self.block(st.handlers[0].body, _copyenv(env), I(pc, C(isascii)), init_mode, owner, rets)
-                    return out + [(env, I(pc, isascii))]
+                    if errors == "strict":
+                        ok = ASCII
+                    elif errors == "surrogateescape":
+                        ok = z3.Star(z3.Union(z3.Range("\x00", "\x7f"), z3.Range(chr(0xDC80), chr(0xDCFF))))
+                    elif errors in ("ignore", "replace", "backslashreplace", "xmlcharrefreplace", "namereplace"):
+                        ok = ALL
+                    else:
+                        raise Unsupported("encode error handler %r" % (errors,))
+                    encodable = t.pull(ok)
+                    out = self.block(st.handlers[0].body, _copyenv(env), I(pc, C(encodable)), init_mode, owner, rets)
+                    return out + [(env, I(pc, encodable))]
             raise Unsupported("try statement")
         if isinstance(st, ast.For) and init_mode:
             return [(env, pc)]
